@@ -157,7 +157,7 @@ func vfC17(slice int) {
 	var vals []vfVal
 	form := 0
 	if slice == 0 {
-		form = vfChoose("object-form", 3)
+		form = vfChoose("object-form", 4)
 	}
 	switch form {
 	case 0:
@@ -173,6 +173,13 @@ func vfC17(slice int) {
 		id := vfIRI("obj")
 		a.tree["object"] = map[string]interface{}{"type": "Note", "id": id}
 		vals = append(vals, vfVal{id: id, embedded: true})
+	case 3:
+		// an embedded intransitive activity (it has a target but no object property)
+		id := vfIRI("obj")
+		tg := vfIRI("obj.target")
+		it := []string{"Arrive", "Question"}[vfChoose("intransitive", 2)]
+		a.tree["object"] = map[string]interface{}{"type": it, "id": id, "target": tg}
+		vals = append(vals, vfVal{id: id, embedded: true, next: []vfVal{{id: tg}}})
 	}
 	if slice == 0 {
 		switch vfChoose("has-tag", 3) {
